@@ -215,7 +215,14 @@ impl FrameOracle {
                             out.oracle("C10", "delay-resp-echo", &format!("{line} -> Delay_Resp numbered {} for requester {}", be(b, 30, 2), pid(b, 44)));
                         }
                         let got = ((wire_ns(b, 34) as i128) << 16) + corr16(b);
-                        let want = (ts >> 16) as i128 + corr16(&req);
+                        let mut want = (ts >> 16) as i128 + corr16(&req);
+                        // the correction field is 64 bits wide: a sum that does not fit saturates
+                        let exact_corr = corr16(&req) + ((ts >> 16) & 0xffff) as i128;
+                        if exact_corr > i64::MAX as i128 || exact_corr < i64::MIN as i128 {
+                            let sat = if exact_corr > 0 { i64::MAX as i128 } else { i64::MIN as i128 };
+                            want = ((wire_ns(b, 34) as i128) << 16) + sat;
+                            out.count("c10.delay-resp-correction-saturated");
+                        }
                         if got != want {
                             out.oracle("C10", "delay-resp-time", &format!("{line} -> Delay_Resp receive+correction = {got}, receive time + request correction = {want} (2^-16 ns)"));
                         }
